@@ -172,6 +172,21 @@ func c10History(r *rand.Rand, i int, withRing bool) []Ev {
 	}
 	nsteps := 4 + r.Intn(22)
 	var steps [][2]interface{}
+	if !ring && i%19 == 7 && nobj >= 4 {
+		// one signal of two or three descriptors re-sent many times (each re-send is a run of duplicates), then a
+		// descriptor not seen before for the same time, twice in a row: it must be remembered like any other
+		n := 2 + r.Intn(2)
+		for k := 0; k < nobj; k++ {
+			objs[k]["haspts"], objs[k]["pts"], objs[k]["eid"] = true, W64(5000), []int{0, 1 + k} // distinct descriptors of one time
+		}
+		for rep := []int{12, 33, 40, 70}[r.Intn(4)]; rep > 0; rep-- {
+			for k := 0; k < n; k++ {
+				steps = append(steps, [2]interface{}{"process", k})
+			}
+		}
+		steps = append(steps, [2]interface{}{"process", n}, [2]interface{}{"process", n}, [2]interface{}{"open", 0})
+		nsteps = r.Intn(8)
+	}
 	if ring {
 		// every object once in order (each new time takes a slot), then again: those whose slot was
 		// reused are no longer known, the recent ones still are
